@@ -100,6 +100,7 @@ pub(crate) fn run_scheduling_solver(
             for (v_idx, rq) in rqv.requests_with_ids() {
                 if rq.is_multi_node() {
                     if worker.is_free()
+                        && worker.has_time_to_run(rq.min_time(), now)
                         && worker_groups
                             .get(&worker.configuration.group)
                             .unwrap()
